@@ -11,6 +11,8 @@ import Mathlib.Logic.Function.Basic
 import Mathlib.Algebra.Order.Ring.Rat
 import Mathlib.Analysis.SpecialFunctions.Integrals.Basic
 import AoVerif.Lemmas.RealScalar
+import AoVerif.Lemmas.ZernikeRadial
+import AoVerif.Lemmas.ZernikePoly
 import AoVerif.Model.Zernike
 
 namespace AoVerif.Props.C12
@@ -610,6 +612,59 @@ theorem radial_at_one_le30 (n m : ℕ) (h : n ≤ 30) (hm : m ≤ n) (hp : (n - 
 
 end Radial
 
+/-! ### `R_n^m(1) = 1` for ALL valid `(n, m)` (not a table) -/
+
+section RadialAtOne
+open AoVerif.Lemmas.ZernikePoly (fact_eq_factorial valid_split)
+
+theorem altSign_real (i : ℕ) (x : ℝ) : altSign i x = (-1) ^ i * x := by
+  unfold altSign
+  rcases Nat.even_or_odd i with h | h
+  · rw [if_pos (Nat.even_iff.mp h), h.neg_one_pow, one_mul]
+  · rw [if_neg (by rw [Nat.odd_iff.mp h]; decide), h.neg_one_pow, neg_one_mul]
+
+theorem altSign_rat (i : ℕ) (x : ℚ) : altSign i x = (-1) ^ i * x := by
+  unfold altSign
+  rcases Nat.even_or_odd i with h | h
+  · rw [if_pos (Nat.even_iff.mp h), h.neg_one_pow, one_mul]
+  · rw [if_neg (by rw [Nat.odd_iff.mp h]; decide), h.neg_one_pow, neg_one_mul]
+
+/-- **`R_n^m(1) = 1` for every valid `(n, m)`** (all radial orders): the code's factorial sum at `r = 1` is
+`Σ_k (-1)^k C(a,k) C(a+s-k,a)` with `a = (n+m)/2`, `s = (n-m)/2`, which is `[x^s] (1-x)^a (1-x)^-(a+1) = 1`
+(`Lemmas/ZernikeRadial.lean`, induction on `a` with Pascal's rule) -/
+theorem radial_at_one (n m : ℕ) (hm : m ≤ n) (hp : (n - m) % 2 = 0) : radialFunc n m (1 : ℝ) = 1 := by
+  obtain ⟨hs, hn⟩ := valid_split n m hm hp
+  unfold radialFunc
+  rw [sumTo_real]
+  refine Eq.trans ?_ (Lemmas.ZernikeRadial.alt_sum_factorial (K := ℝ) ((n + m) / 2) ((n - m) / 2) hs)
+  apply Finset.sum_congr rfl
+  intro i _
+  unfold radialTerm
+  rw [altSign_real, one_pow, one_mul, fact_eq_factorial, fact_eq_factorial, fact_eq_factorial, fact_eq_factorial, hn i]
+
+/-- the same over ℚ (the scalar of the kernel-checked table `table_radial_at_one`, which this supersedes) -/
+theorem radial_at_one_rat (n m : ℕ) (hm : m ≤ n) (hp : (n - m) % 2 = 0) : radialFunc n m (1 : ℚ) = 1 := by
+  obtain ⟨hs, hn⟩ := valid_split n m hm hp
+  unfold radialFunc
+  have e : ∀ (k : ℕ) (f : ℕ → ℚ), sumTo k f = ∑ i ∈ Finset.range k, f i := by
+    intro k f; unfold sumTo; rw [sumToFrom_eq]; norm_num
+  rw [e]
+  refine Eq.trans ?_ (Lemmas.ZernikeRadial.alt_sum_factorial (K := ℚ) ((n + m) / 2) ((n - m) / 2) hs)
+  apply Finset.sum_congr rfl
+  intro i _
+  unfold radialTerm
+  rw [altSign_rat, one_pow, one_mul, fact_eq_factorial, fact_eq_factorial, fact_eq_factorial, fact_eq_factorial, hn i]
+
+/-- every Noll mode: `R(1) = 1` for the `(n, |m|)` of every index `j ≥ 1` -/
+theorem radial_at_one_noll (j : ℕ) (hj : 1 ≤ j) :
+    radialFunc (zernIndex j).1 (zernIndex j).2.natAbs (1 : ℝ) = 1 :=
+  radial_at_one _ _ (zernIndex_valid j hj).1 (zernIndex_valid j hj).2
+
+/-- non-vacuity: (n, m) = (4, 2) is valid, and its value at 1 is the literal sum `4·1 − 3·1 = 1` -/
+example : (2 : ℕ) ≤ 4 ∧ (4 - 2) % 2 = 0 ∧ radialFunc 4 2 (1 : ℚ) = 1 := by decide +kernel
+
+end RadialAtOne
+
 /-! ### the Cartesian model is the code's polar expression -/
 
 section Polar
@@ -831,25 +886,208 @@ theorem gamy_cleared (nm : List (ℕ × ℕ)) (i j : ℕ) :
 end GammaCleared
 
 
+/-! ### bridge from the kernel-checked gamma tables to true derivatives (`HasDerivAt`)
+
+`Lemmas/ZernikePoly.lean` (all orders): `Poly.eval` is a ring homomorphism for the list operations, `Poly.dx`/`Poly.dy` are the partial
+derivatives of `Poly.eval`, `csPoly`/`radialQuotPoly` evaluate to `cs`/`radialQuot` (exact integer division in `radialCoefInt`). -/
+
+section GammaBridge
+open AoVerif.Lemmas.ZernikePoly
+set_option linter.unusedSectionVars false
+variable [Transc ℝ] [RealTransc]
+
+/-- **bridge (a)**: the Cartesian model of a mode at `rot = 0` IS its normalisation constant times the evaluation of the
+integer polynomial `zernPoly n m` (all valid `(n, m)`, all `x y`) -/
+theorem modeCart_eq_poly (n : ℕ) (m : ℤ) (hm : m.natAbs ≤ n) (hpar : (n - m.natAbs) % 2 = 0) (x y : ℝ) :
+    modeCart n m 0 x y = modeCartPoly n m x y := by
+  unfold modeCart modeCartPoly zernPoly
+  simp only [eval_csPoly, RealTransc.cos_eq, RealTransc.sin_eq, Real.cos_zero, Real.sin_zero]
+  split_ifs with h0 hpos
+  · subst h0
+    rw [eval_radialQuotPoly n 0 (by omega) (by simpa using hpar)]
+  · rw [eval_mul, eval_radialQuotPoly n m.natAbs hm hpar]; ring
+  · rw [eval_mul, eval_radialQuotPoly n m.natAbs hm hpar]; ring
+
+theorem modeCartPoly_eq_normConst (n : ℕ) (m : ℤ) (x y : ℝ) :
+    modeCartPoly n m x y = normConst n m.natAbs * Poly.eval (zernPoly n m) x y := by
+  unfold modeCartPoly normConst
+  simp only [RealTransc.sqrt_eq, Int.natAbs_eq_zero]
+  split_ifs <;> push_cast <;> rfl
+
+theorem zernIndex_natAbs (j : ℕ) : (zernIndex j).2.natAbs = nollAbsM j := by
+  unfold zernIndex; simp only; split_ifs with h1 h2 <;> simp [h1]
+
+/-- the Noll mode `j` at `rot = 0` as constant × integer polynomial -/
+theorem nollMode_eq_poly (j : ℕ) (hj : 1 ≤ j) (x y : ℝ) :
+    modeCart (zernIndex j).1 (zernIndex j).2 0 x y = normConst (nollN j) (nollAbsM j) * Poly.eval (nollPoly j) x y := by
+  rw [modeCart_eq_poly _ _ (zernIndex_valid j hj).1 (zernIndex_valid j hj).2, modeCartPoly_eq_normConst, zernIndex_natAbs]
+  rfl
+
+/-- number of modes of radial order ≤ `nzrad` = size of the gamma matrices of `makegammas nzrad` -/
+def nModes (nzrad : ℕ) : ℕ := (nzrad + 1) * (nzrad + 2) / 2
+
+theorem gammaNM_getD (nzrad j : ℕ) (hj : j < nModes nzrad) :
+    (gammaNM nzrad).getD j (0, 0) = (nollN (j + 1), nollAbsM (j + 1)) := by
+  unfold nModes at hj
+  rw [gammaNM_noll]
+  simp [List.getD_eq_getElem?_getD, hj]
+
+theorem gammaNM_length (nzrad : ℕ) : (gammaNM nzrad).length = nModes nzrad := by
+  rw [gammaNM_noll]; simp [nModes]
+
+/-- the decidable polynomial check for one `nzrad`: every coefficient of every residual `∂P_i − Σ_j g_ij P_j` vanishes -/
+def ResidualTable (useY : Bool) (nzrad : ℕ) : Prop :=
+  ∀ i ∈ List.range (nModes nzrad), (Poly.norm (gammaResidual useY nzrad i)).all (fun t => t.2.2 = 0) = true
+
+instance (useY : Bool) (nzrad : ℕ) : Decidable (ResidualTable useY nzrad) := by unfold ResidualTable; infer_instance
+
+/-- a residual table read as an identity of polynomial FUNCTIONS over ℝ (any `nzrad`) -/
+theorem residual_dx_eval (nzrad : ℕ) (htab : ResidualTable false nzrad) (i : ℕ) (hi : i < nModes nzrad) (x y : ℝ) :
+    Poly.eval (Poly.dx (nollPoly (i + 1))) x y
+      = ∑ j ∈ Finset.range (nModes nzrad), (gamxInt (gammaNM nzrad) i j : ℝ) * Poly.eval (nollPoly (j + 1)) x y := by
+  have h := eval_of_norm_all_zero _ (htab i (List.mem_range.mpr hi)) x y
+  unfold gammaResidual at h
+  simp only [Bool.false_eq_true, if_false] at h
+  rw [eval_append, eval_flatMap_range, gammaNM_length] at h
+  simp only [eval_smul] at h
+  have e : ∑ j ∈ Finset.range (nModes nzrad), ((-(gamxInt (gammaNM nzrad) i j) : ℤ) : ℝ) * Poly.eval (nollPoly (j + 1)) x y
+      = -∑ j ∈ Finset.range (nModes nzrad), (gamxInt (gammaNM nzrad) i j : ℝ) * Poly.eval (nollPoly (j + 1)) x y := by
+    rw [← Finset.sum_neg_distrib]
+    apply Finset.sum_congr rfl
+    intro j _
+    push_cast; ring
+  rw [e] at h
+  linarith
+
+theorem residual_dy_eval (nzrad : ℕ) (htab : ResidualTable true nzrad) (i : ℕ) (hi : i < nModes nzrad) (x y : ℝ) :
+    Poly.eval (Poly.dy (nollPoly (i + 1))) x y
+      = ∑ j ∈ Finset.range (nModes nzrad), (gamyInt (gammaNM nzrad) i j : ℝ) * Poly.eval (nollPoly (j + 1)) x y := by
+  have h := eval_of_norm_all_zero _ (htab i (List.mem_range.mpr hi)) x y
+  unfold gammaResidual at h
+  simp only [if_true] at h
+  rw [eval_append, eval_flatMap_range, gammaNM_length] at h
+  simp only [eval_smul] at h
+  have e : ∑ j ∈ Finset.range (nModes nzrad), ((-(gamyInt (gammaNM nzrad) i j) : ℤ) : ℝ) * Poly.eval (nollPoly (j + 1)) x y
+      = -∑ j ∈ Finset.range (nModes nzrad), (gamyInt (gammaNM nzrad) i j : ℝ) * Poly.eval (nollPoly (j + 1)) x y := by
+    rw [← Finset.sum_neg_distrib]
+    apply Finset.sum_congr rfl
+    intro j _
+    push_cast; ring
+  rw [e] at h
+  linarith
+
+/-- **reduction of the derivative claim to a decidable check, for EVERY `nzrad`**: if the integer-polynomial residuals of `makegammas nzrad`
+all vanish (`ResidualTable false nzrad`, a finite computation), then `∂ₓ Z_i = Σ_j γˣ_ij Z_j` holds as a true derivative of the model's
+modes at every point, for every row `i` of the matrix -/
+theorem gamma_dx_of_table (nzrad : ℕ) (htab : ResidualTable false nzrad) (i : ℕ) (hi : i < nModes nzrad) (x y : ℝ) :
+    HasDerivAt (fun x => modeCart (zernIndex (i + 1)).1 (zernIndex (i + 1)).2 0 x y)
+      (∑ j ∈ Finset.range (nModes nzrad),
+        gamxEntry (gammaNM nzrad) i j * modeCart (zernIndex (j + 1)).1 (zernIndex (j + 1)).2 0 x y) x := by
+  have ef : (fun x => modeCart (zernIndex (i + 1)).1 (zernIndex (i + 1)).2 0 x y)
+      = fun x => normConst (nollN (i + 1)) (nollAbsM (i + 1)) * Poly.eval (nollPoly (i + 1)) x y := by
+    funext x; exact nollMode_eq_poly (i + 1) (by omega) x y
+  rw [ef]
+  refine ((hasDerivAt_eval_dx (nollPoly (i + 1)) x y).const_mul _).congr_deriv ?_
+  rw [residual_dx_eval nzrad htab i hi, Finset.mul_sum]
+  apply Finset.sum_congr rfl
+  intro j hj
+  rw [Finset.mem_range] at hj
+  have hc := gamx_cleared (gammaNM nzrad) i j
+  rw [gammaNM_getD nzrad i hi, gammaNM_getD nzrad j hj] at hc
+  rw [nollMode_eq_poly (j + 1) (by omega)]
+  simp only at hc
+  linear_combination (-Poly.eval (nollPoly (j + 1)) x y) * hc
+
+theorem gamma_dy_of_table (nzrad : ℕ) (htab : ResidualTable true nzrad) (i : ℕ) (hi : i < nModes nzrad) (x y : ℝ) :
+    HasDerivAt (fun y => modeCart (zernIndex (i + 1)).1 (zernIndex (i + 1)).2 0 x y)
+      (∑ j ∈ Finset.range (nModes nzrad),
+        gamyEntry (gammaNM nzrad) i j * modeCart (zernIndex (j + 1)).1 (zernIndex (j + 1)).2 0 x y) y := by
+  have ef : (fun y => modeCart (zernIndex (i + 1)).1 (zernIndex (i + 1)).2 0 x y)
+      = fun y => normConst (nollN (i + 1)) (nollAbsM (i + 1)) * Poly.eval (nollPoly (i + 1)) x y := by
+    funext y; exact nollMode_eq_poly (i + 1) (by omega) x y
+  rw [ef]
+  refine ((hasDerivAt_eval_dy (nollPoly (i + 1)) x y).const_mul _).congr_deriv ?_
+  rw [residual_dy_eval nzrad htab i hi, Finset.mul_sum]
+  apply Finset.sum_congr rfl
+  intro j hj
+  rw [Finset.mem_range] at hj
+  have hc := gamy_cleared (gammaNM nzrad) i j
+  rw [gammaNM_getD nzrad i hi, gammaNM_getD nzrad j hj] at hc
+  rw [nollMode_eq_poly (j + 1) (by omega)]
+  simp only at hc
+  linear_combination (-Poly.eval (nollPoly (j + 1)) x y) * hc
+
+/-- **TABLE** (kernel-checked, `nzrad = 12` = 91 modes; NOT the unbounded claim) -/
+theorem table_gamma_dx12 : ResidualTable false 12 := by decide +kernel
+
+/-- **TABLE** (kernel-checked, `nzrad = 12` = 91 modes; NOT the unbounded claim) -/
+theorem table_gamma_dy12 : ResidualTable true 12 := by decide +kernel
+
+/-- the x TABLE for `nzrad = 8` read as an identity of polynomial FUNCTIONS over ℝ -/
+theorem table_gamma_dx_eval (i : ℕ) (hi : i < 45) (x y : ℝ) :
+    Poly.eval (Poly.dx (nollPoly (i + 1))) x y
+      = ∑ j ∈ Finset.range 45, (gamxInt (gammaNM 8) i j : ℝ) * Poly.eval (nollPoly (j + 1)) x y :=
+  residual_dx_eval 8 table_gamma_dx i hi x y
+
+theorem table_gamma_dy_eval (i : ℕ) (hi : i < 45) (x y : ℝ) :
+    Poly.eval (Poly.dy (nollPoly (i + 1))) x y
+      = ∑ j ∈ Finset.range 45, (gamyInt (gammaNM 8) i j : ℝ) * Poly.eval (nollPoly (j + 1)) x y :=
+  residual_dy_eval 8 table_gamma_dy i hi x y
+
+/-- **∂ₓ Z_i = Σ_j γˣ_ij Z_j as a true derivative**, for the 45 modes of radial order ≤ 8 (BOUNDED: rests on the kernel-checked
+TABLE `table_gamma_dx`; everything else — bridge (a), `Poly.dx` = derivative, clearing of the square roots — holds for all orders) -/
+theorem gamma_dx_le8 (i : ℕ) (hi : i < 45) (x y : ℝ) :
+    HasDerivAt (fun x => modeCart (zernIndex (i + 1)).1 (zernIndex (i + 1)).2 0 x y)
+      (∑ j ∈ Finset.range 45, gamxEntry (gammaNM 8) i j * modeCart (zernIndex (j + 1)).1 (zernIndex (j + 1)).2 0 x y) x :=
+  gamma_dx_of_table 8 table_gamma_dx i hi x y
+
+theorem gamma_dy_le8 (i : ℕ) (hi : i < 45) (x y : ℝ) :
+    HasDerivAt (fun y => modeCart (zernIndex (i + 1)).1 (zernIndex (i + 1)).2 0 x y)
+      (∑ j ∈ Finset.range 45, gamyEntry (gammaNM 8) i j * modeCart (zernIndex (j + 1)).1 (zernIndex (j + 1)).2 0 x y) y :=
+  gamma_dy_of_table 8 table_gamma_dy i hi x y
+
+/-- the same for the 91 modes of radial order ≤ 12 (BOUNDED: rests on the kernel-checked TABLE `table_gamma_dx12`) -/
+theorem gamma_dx_le12 (i : ℕ) (hi : i < 91) (x y : ℝ) :
+    HasDerivAt (fun x => modeCart (zernIndex (i + 1)).1 (zernIndex (i + 1)).2 0 x y)
+      (∑ j ∈ Finset.range 91, gamxEntry (gammaNM 12) i j * modeCart (zernIndex (j + 1)).1 (zernIndex (j + 1)).2 0 x y) x :=
+  gamma_dx_of_table 12 table_gamma_dx12 i hi x y
+
+theorem gamma_dy_le12 (i : ℕ) (hi : i < 91) (x y : ℝ) :
+    HasDerivAt (fun y => modeCart (zernIndex (i + 1)).1 (zernIndex (i + 1)).2 0 x y)
+      (∑ j ∈ Finset.range 91, gamyEntry (gammaNM 12) i j * modeCart (zernIndex (j + 1)).1 (zernIndex (j + 1)).2 0 x y) y :=
+  gamma_dy_of_table 12 table_gamma_dy12 i hi x y
+
+/-- non-vacuity of the table hypothesis: it holds for `nzrad = 2` (and is a genuine check: it FAILS for the x matrix read against ∂_y) -/
+example : ResidualTable false 2 ∧ ResidualTable true 2 ∧
+    ¬ (∀ i ∈ List.range (nModes 2), (Poly.norm (Poly.dy (nollPoly (i + 1)) ++ (List.range (gammaNM 2).length).flatMap (fun j =>
+        Poly.smul (-(gamxInt (gammaNM 2) i j)) (nollPoly (j + 1))))).all (fun t => t.2.2 = 0) = true) := by
+  decide +kernel
+
+/-- non-vacuity: a lawful `Transc ℝ` exists (any `kv`), and `i = 7` (coma, Noll 8) is one of the 45 modes -/
+example : (∃ T : Transc ℝ, @RealTransc T) ∧ 7 < 45 := ⟨⟨realTransc (fun _ _ => 0), realTransc_lawful _⟩, by decide⟩
+
+end GammaBridge
+
+
 /-
 NOT PROVED (kept as statements; listed in `chk.assumptions` of harness/props/c12.py):
 
-* `radial_at_one : ∀ n m, m ≤ n → (n - m) % 2 = 0 → radialFunc n m (1 : ℝ) = 1`
-    — proved only as the TABLE `table_radial_at_one` / `radial_at_one_le30` (n ≤ 30); the general case is the identity
-      `Σ_i (-1)^i C(n-i, i) C(n-2i, (n-m)/2-i) = 1`, not attempted.
 * `radial_orthogonal : ∀ n n' m (valid), ∫ ρ in 0..1, radialFunc n m ρ * radialFunc n' m ρ * ρ = if n = n' then 1/(2(n+1)) else 0`
     — proved for n, n' ≤ 10 (`radial_orthogonal_le10`, from `radial_integral` + the TABLE); the general case needs the
       Jacobi-polynomial theory Mathlib lacks.  Together with the angular integrals this is continuous orthonormality.
 * `gram_tends_to_identity : Tendsto (fun N => Gram matrix of zernikeArray J N) atTop (𝓝 1)` — a Riemann-sum / lattice-point statement;
     numeric only (oracle bound `2(n_max+1)/N`).
 * `gamma_dx : ∀ nzrad i (x y : ℝ), HasDerivAt (fun x => modeCart n_i m_i 0 x y) (Σ_j gamxEntry (gammaNM nzrad) i j * modeCart n_j m_j 0 x y) x`
-  (and `gamma_dy`) — proved pieces: the exact polynomial identity `∂P_i = Σ_j g_ij P_j` for all 45 modes of radial order ≤ 8
-    (`table_gamma_dx`, `table_gamma_dy`), and for ALL orders the clearing of the square roots `γ_ij c_j = g_ij c_i`
-    (`gamx_cleared`, `gamy_cleared`).  Not proved: (a) `modeCart n m 0 x y = normConst n |m| * Poly.eval (zernPoly n m) x y`
-    (needs exactness of the integer division in `radialCoefInt`, i.e. i!·a!·b! ∣ (n-i)!, and the `Poly.eval` homomorphism lemmas) and
-    (b) `Poly.dx` is the derivative of `Poly.eval`; both are routine but were not done.  (a) is exercised on every run by the
-    `polymode` correspondence (Float evaluation of `zernPoly` against `zernike_nm`), the whole identity by the oracle
-    (exact-stencil derivative of the generated modes against `makegammas`), for `nzrad ≤ 8` quick / `≤ 12` thorough.
+  (and `gamma_dy`) for ALL `nzrad` — proved for every `nzrad` only CONDITIONALLY on the decidable integer-polynomial check
+    `ResidualTable _ nzrad` (`gamma_dx_of_table`, `gamma_dy_of_table`), and unconditionally for the 45 / 91 modes of radial order ≤ 8 / ≤ 12
+    (`gamma_dx_le8`, `gamma_dy_le8`, `gamma_dx_le12`, `gamma_dy_le12`), where the check is a kernel-evaluated TABLE (`table_gamma_dx`,
+    `table_gamma_dy`, `table_gamma_dx12`, `table_gamma_dy12`).  Every other link holds for all orders: `modeCart_eq_poly` (mode = c · eval
+    zernPoly, incl. exactness of the integer division in `radialCoefInt`), `hasDerivAt_eval_dx/dy` (`Poly.dx/dy` = partial derivatives of
+    `Poly.eval`), `gamx_cleared`/`gamy_cleared` (square roots), `gammaNM_noll` (ordering).  The missing piece is `∀ nzrad, ResidualTable _ nzrad`,
+    i.e. Noll's derivative recurrence for general `n`: in complex form `∂_z̄ V_n^m = Σ_{n' = n-1, n-3, …} (n'+1) V_{n'}^{m+1}`, whose coefficient
+    identity `Σ_t (-1)^t (n-2t) (n-1-t-k)!/(k-t)! = (n-k)!/k!` telescopes, PLUS its translation into the cos/sin, index-parity and Noll-position
+    bookkeeping of rules b–d for a general row — not done.  Orders > 12 are not exercised either (oracle: exact-stencil derivative of the
+    generated modes against `makegammas`, `nzrad ≤ 8` quick / `≤ 12` thorough).
 -/
 
 end AoVerif.Props.C12
